@@ -61,6 +61,14 @@ def rewrites(rng, q):
     out = [("layout", layout_variant(rng, q)), ("layout", layout_variant(rng, q))]
     out.append(("parens", "(" + q + ")"))
     toks = tokens(q)
+    # `()` is a no-op wherever a statement may stand
+    for _ in range(2):
+        t2 = list(toks)
+        for _ in range(rng.randint(1, 4)):
+            t2.insert(rng.randint(0, len(t2)), "()")
+        cand = " ".join(t2)
+        if not re.search(r"(let|:=|then|else|if|\|\||,|==|!=|<=|>=|<|>)\s*\(\)|\(\)\s*(:=|then|else|==|!=|<=|>=|<|>|\*|\+|\?)", cand):
+            out.append(("nop", cand))
     # redundant parentheses around a plain word
     idx = [i for i, t in enumerate(toks) if re.fullmatch(r"[a-z?!][a-z_?!0-9]*|-?\d+|0x[0-9a-f]+", t) and t not in ("let", "if", "then", "else")]
     if idx:
@@ -115,7 +123,7 @@ def run(ctx):
     rng = ctx.sub_rng("rw")
     g = zgen.G(ctx.sub_rng("gen"), max_depth=3, illtyped=0.03)
     progs = [g.program() for _ in range(700 if quick else 8000)]
-    progs += ['"abc" "d%se"', '1 "x%dy" "%s%s"', '"a\\x41b" length', '"tab\\there"', '7 "%x %o %b %d"', '"" ""', '"%%"']
+    progs += ["1 () () 2", "[(()) 1 () (2, 3)]", "() 1 () () 2 () 3 ()", "(() ()) 1", "1 (() 2 ()) () 3", '1 "x%dy" "%s%s"', '"a\\x41b" length', '"tab\\there"', '7 "%x %o %b %d"', '"" ""', '"%%"']
     evaluations = 0
     nontrivial = set()
     kinds = {}
